@@ -10,16 +10,16 @@ func c10Specs() []*bfsSpec {
 		{Name: "c10-consumers", Cfg: worldCfg{Geom: "gtail", Peers: peerAll, AutoDrain: true},
 			Setup:    []string{"haveall:0"},
 			Alphabet: []string{"creq:0:1:1", "creq:0:1:0", "creq:0:0:1", "creq:1:1:1", "creq:1:-1:0", "cdel:0:1", "cdel:0:0", "cdel:1:1", "cdel:1:-1", "complete:0", "complete:1", "fail:0", "evict", "tick", "setconf:0"},
-			Depth: 5, DepthT: 7},
+			Depth: 6, DepthT: 8},
 		{Name: "c10-idle", Cfg: worldCfg{Geom: "gtail", Peers: peerAll, AutoDrain: true, IdleRate: 65536},
 			Setup:    []string{"haveall:0", "unchoke:0"},
 			Alphabet: []string{"tick", "creq:0:1:1", "creq:2:0:1", "cdel:0:1", "cdel:2:0", "complete:0", "complete:2", "fail:1", "evict", "setconf:0", "adv:61", "ans:0:old:full"},
-			Depth: 5, DepthT: 6},
+			Depth: 6, DepthT: 7},
 		{Name: "c10-readers", Cfg: worldCfg{Geom: "gtail", Peers: peerAll, AutoDrain: true},
 			Setup:    []string{"haveall:0"},
 			Alphabet: []string{"ropen:0:81921", "ropen:32768:40000", "ropen:100:20000", "rread:0:40000", "rread:1:100", "rseek:0:40000", "rseek:0:70000", "rseek:1:0", "rclose:0", "rclose:1", "rcancel:0",
 				"complete:0", "complete:1", "complete:2", "fail:0", "evict", "creq:0:1:1", "cdel:0:1"},
-			Depth: 5, DepthT: 6},
+			Depth: 6, DepthT: 7},
 	}
 }
 
